@@ -11,8 +11,9 @@
 typedef unsigned long ul;
 enum { F_ADDASSIGN, F_PREINC, F_POSTINC, F_SUBASSIGN, F_FETCHADD, F_FETCHSUB, F_MULODD, F_XOR, F_ORAND, F_EXCHANGE, F_CASLOOP, F_CLAIM, NFAM };
 static const char *famname[] = {"op=add", "++pre", "post++", "op=sub", "fetch_add", "fetch_sub", "op=mul-odd", "op=xor", "fetch_or/and", "exchange", "cas-loop", "claim-release"};
-static const char *wname[] = {"w1", "w2", "w4", "w8", "w1s", "w8s", "w4member", "w8pointer"};
-static const int wbits[] = {8, 16, 32, 64, 8, 64, 32, 64};
+static const char *wname[] = {"w1", "w2", "w4", "w8", "w1s", "w8s", "w4member", "w8pointer", "w8double", "w4float"};
+static const int wbits[] = {8, 16, 32, 64, 8, 64, 32, 64, 64, 32};
+static const int wfloat[] = {0, 0, 0, 0, 0, 0, 0, 0, 1, 1};   // objects of floating type hold integral values: compared as numbers, not as bit patterns
 static const char *stname[] = {"static", "automatic", "heap"};
 
 #define DECL(S) \
@@ -20,15 +21,21 @@ static const char *stname[] = {"static", "automatic", "heap"};
   void w_fetchadd_##S(void *, long, ul *); void w_fetchsub_##S(void *, long, ul *); void w_mulodd_##S(void *, long, ul *); void w_xor_##S(void *, long, ul *, ul); \
   void w_orand_##S(void *, long, ul *, ul); void w_exchange_##S(void *, long, ul *, ul); long w_casloop_##S(void *, long, ul *, long); void w_claim_##S(void *, long, ul *, ul);
 DECL(u8) DECL(u16) DECL(u32) DECL(u64) DECL(i8) DECL(i64) DECL(m32) DECL(p64)
+void w_addassign_d64(void *, long, ul *); void w_preinc_d64(void *, long, ul *); void w_postinc_d64(void *, long, ul *);
+void w_addassign_f32(void *, long, ul *); void w_preinc_f32(void *, long, ul *); void w_postinc_f32(void *, long, ul *);
 void *static_object(int which);
 void with_automatic(int which, void (*run)(void *obj, void *ctx), void *ctx);
 
 typedef void (*fn3)(void *, long, ul *);
 typedef void (*fn4)(void *, long, ul *, ul);
 typedef long (*fncas)(void *, long, ul *, long);
-#define TAB(name) { (void *)w_##name##_u8, (void *)w_##name##_u16, (void *)w_##name##_u32, (void *)w_##name##_u64, (void *)w_##name##_i8, (void *)w_##name##_i64, (void *)w_##name##_m32, (void *)w_##name##_p64 }
-static void *table[NFAM][8] = { TAB(addassign), TAB(preinc), TAB(postinc), TAB(subassign), TAB(fetchadd), TAB(fetchsub), TAB(mulodd), TAB(xor), TAB(orand), TAB(exchange), TAB(casloop), TAB(claim) };
+#define TAB(name) { (void *)w_##name##_u8, (void *)w_##name##_u16, (void *)w_##name##_u32, (void *)w_##name##_u64, (void *)w_##name##_i8, (void *)w_##name##_i64, (void *)w_##name##_m32, (void *)w_##name##_p64, 0, 0 }
+static void *table[NFAM][10] = { TAB(addassign), TAB(preinc), TAB(postinc), TAB(subassign), TAB(fetchadd), TAB(fetchsub), TAB(mulodd), TAB(xor), TAB(orand), TAB(exchange), TAB(casloop), TAB(claim) };
 
+static void fill_float_variants(void) {
+  table[F_ADDASSIGN][8] = (void *)w_addassign_d64; table[F_PREINC][8] = (void *)w_preinc_d64; table[F_POSTINC][8] = (void *)w_postinc_d64;
+  table[F_ADDASSIGN][9] = (void *)w_addassign_f32; table[F_PREINC][9] = (void *)w_preinc_f32; table[F_POSTINC][9] = (void *)w_postinc_f32;
+}
 static int ncpu_avail, cpus[256];
 static pthread_barrier_t bar;
 
@@ -55,9 +62,11 @@ static void *thread_main(void *arg) {
 
 static ul maskw(int w) { return wbits[w] == 64 ? ~0ul : (1ul << wbits[w]) - 1; }
 static ul load_obj(void *obj, int w) {
+  if (wfloat[w]) return wbits[w] == 64 ? (ul)*(volatile double *)obj : (ul)*(volatile float *)obj;
   switch (wbits[w]) { case 8: return *(volatile uint8_t *)obj; case 16: return *(volatile uint16_t *)obj; case 32: return *(volatile uint32_t *)obj; default: return *(volatile uint64_t *)obj; }
 }
 static void store_obj(void *obj, int w, ul v) {
+  if (wfloat[w]) { if (wbits[w] == 64) *(volatile double *)obj = (double)v; else *(volatile float *)obj = (float)v; return; }
   switch (wbits[w]) { case 8: *(volatile uint8_t *)obj = v; break; case 16: *(volatile uint16_t *)obj = v; break; case 32: *(volatile uint32_t *)obj = v; break; default: *(volatile uint64_t *)obj = v; }
 }
 static int cmp_ul(const void *a, const void *b) { ul x = *(const ul *)a, y = *(const ul *)b; return x < y ? -1 : x > y; }
@@ -239,9 +248,11 @@ int main(int argc, char **argv) {
   for (int i = 0; i < CPU_SETSIZE && ncpu_avail < 256; i++) if (CPU_ISSET(i, &set)) cpus[ncpu_avail++] = i;
   if (N > ncpu_avail) N = ncpu_avail;
   setvbuf(stdout, 0, _IOLBF, 0);
+  fill_float_variants();
   int idx = 0;
   for (int fam = 0; fam < NFAM; fam++)
-    for (int w = 0; w < 8; w++) {
+    for (int w = 0; w < 10; w++) {
+      if (!table[fam][w]) continue;
       int st = (idx++ + seed) % 3;
       int nst = small ? 1 : 3;
       for (int s = 0; s < nst; s++) {
@@ -251,6 +262,7 @@ int main(int argc, char **argv) {
         if ((fam == F_EXCHANGE || fam == F_CASLOOP) && wbits[w] == 8) p.n = 250 / N;
         if ((fam == F_EXCHANGE || fam == F_CASLOOP) && wbits[w] == 16 && (long)N * n > 65000) p.n = 65000 / N;
         if (fam == F_CASLOOP && p.n > 200000) p.n = 200000;
+        if (wfloat[w] && wbits[w] == 32 && (long)N * p.n >= (1 << 24)) p.n = ((1 << 24) - 1) / N;
         if (p.st == 0) run_phase_on(static_object(w), &p);
         else if (p.st == 1) with_automatic(w, run_phase_on, &p);
         else {
